@@ -21,6 +21,7 @@ FLAVOUR = "c12"
 
 
 def spec_steps(ctx: Ctx, inp: dict, steps) -> None:
+    ac.spec_raised(ctx, inp, steps)
     for idx, (op, before, after, error) in enumerate(steps):
         if op[0] in ("R", "U", "G", "M"):
             ac.spec_c12_step(ctx, inp, idx, op, before, after, error)
@@ -30,7 +31,7 @@ def one(ctx: Ctx, rng, mode: str, pending: list) -> None:
     inp = ac.gen_input(rng, mode, FLAVOUR)
     nops = rng.choice([1, 2, 3, 3, 4, 5, 6])
     segs, steps, sqrt_ans = ac.run_impl(inp, rng, FLAVOUR, nops)
-    pending.append((inp, segs, ac.request(inp, sqrt_ans)))
+    pending.append((inp, segs, ac.request(inp, sqrt_ans), sqrt_ans))
     spec_steps(ctx, inp, steps)
     valid = not segs[0].startswith("err")
     decisions = sum(1 for (op, b, a, e) in steps if op[0] in "RUGM")
@@ -75,7 +76,7 @@ def run(ctx: Ctx) -> None:
 def replay_input(ctx: Ctx, inp: dict, pending: list) -> None:
     inp = dict(inp)
     segs, steps, sqrt_ans = ac.run_impl(inp)
-    pending.append((inp, segs, ac.request(inp, sqrt_ans)))
+    pending.append((inp, segs, ac.request(inp, sqrt_ans), sqrt_ans))
     spec_steps(ctx, inp, steps)
 
 
